@@ -34,6 +34,7 @@ import (
 	"os"
 	"reflect"
 	"runtime"
+	"runtime/debug"
 	"sort"
 	"strconv"
 	"strings"
@@ -66,6 +67,15 @@ var vc11Main = []vc11Sym{
 // number, curly brackets and '<' left out); enumerated one symbol longer than vc11Main.
 var vc11Reduced = []vc11Sym{
 	{"a", lex.TLiteral}, {`"q r"`, lex.TQuoted}, {"7", lex.TLiteral}, {"w*", lex.TLiteral}, {"/r/", lex.TRegexp},
+	{"AND", lex.TAnd}, {"OR", lex.TOr}, {"NOT", lex.TNot}, {"TO", lex.TTO},
+	{"(", lex.TLParen}, {")", lex.TRParen}, {"[", lex.TLSquare}, {"]", lex.TRSquare},
+	{":", lex.TColon}, {"=", lex.TEqual}, {">", lex.TGreater}, {"+", lex.TPlus}, {"-", lex.TMinus},
+	{"~", lex.TTilde}, {"^", lex.TCarrot},
+}
+
+// vc11Small: a still smaller sub-alphabet for the longest layer of the thorough tier.
+var vc11Small = []vc11Sym{
+	{"a", lex.TLiteral}, {"7", lex.TLiteral}, {"w*", lex.TLiteral},
 	{"AND", lex.TAnd}, {"OR", lex.TOr}, {"NOT", lex.TNot}, {"TO", lex.TTO},
 	{"(", lex.TLParen}, {")", lex.TRParen}, {"[", lex.TLSquare}, {"]", lex.TRSquare},
 	{":", lex.TColon}, {"=", lex.TEqual}, {">", lex.TGreater}, {"+", lex.TPlus}, {"-", lex.TMinus},
@@ -405,12 +415,20 @@ func vc11NewStats() *vc11Stats {
 	return &vc11Stats{byCat: map[string]int64{}, best: map[string][]vc11Fail{}}
 }
 
-func (s *vc11Stats) keep(cat string, f vc11Fail) {
+// keep records f as a witness of cat if it is among the three smallest; the message is
+// only built then (mk == nil: f.msg is already there).
+func (s *vc11Stats) keep(cat string, f vc11Fail, mk func() string) {
 	l := s.best[cat]
 	for _, g := range l {
 		if g.input == f.input { // one message per input and category
 			return
 		}
+	}
+	if len(l) == 3 && !f.less(l[2]) {
+		return
+	}
+	if mk != nil {
+		f.msg = mk()
 	}
 	l = append(l, f)
 	sort.Slice(l, func(a, b int) bool { return l[a].less(l[b]) })
@@ -420,13 +438,13 @@ func (s *vc11Stats) keep(cat string, f vc11Fail) {
 	s.best[cat] = l
 }
 
-func (s *vc11Stats) fail(cat string, ntok int, input, msg string) {
-	s.failN(cat, 1, ntok, input, msg)
+func (s *vc11Stats) fail(cat string, ntok int, input string, mk func() string) {
+	s.failN(cat, 1, ntok, input, mk)
 }
 
-func (s *vc11Stats) failN(cat string, ncat, ntok int, input, msg string) {
+func (s *vc11Stats) failN(cat string, ncat, ntok int, input string, mk func() string) {
 	s.byCat[cat]++
-	s.keep(cat, vc11Fail{ncat, ntok, s.rnd, input, msg})
+	s.keep(cat, vc11Fail{ncat: ncat, ntok: ntok, rnd: s.rnd, input: input}, mk)
 }
 
 func (s *vc11Stats) merge(o *vc11Stats) {
@@ -437,7 +455,7 @@ func (s *vc11Stats) merge(o *vc11Stats) {
 	}
 	for c, l := range o.best {
 		for _, f := range l {
-			s.keep(c, f)
+			s.keep(c, f, nil)
 		}
 	}
 }
@@ -452,7 +470,7 @@ func vc11Check(st *vc11Stats, in string, want []vc11Sym, fields []string) {
 	}
 	t0, err0, pan0 := vc11Parse(in, false, "")
 	if pan0 != "" {
-		st.fail("panic", size, in, fmt.Sprintf("[panic] %s : Parse without option panicked: %s", q, pan0))
+		st.fail("panic", size, in, func() string { return fmt.Sprintf("[panic] %s : Parse without option panicked: %s", q, pan0) })
 		return
 	}
 	ok0 := err0 == nil && t0 != nil
@@ -461,7 +479,7 @@ func vc11Check(st *vc11Stats, in string, want []vc11Sym, fields []string) {
 		st.evals++
 		tf, errf, panf := vc11Parse(in, true, f)
 		if panf != "" {
-			st.fail("panic", size, in, fmt.Sprintf("[panic] %s : Parse with default field %q panicked: %s", q, f, panf))
+			st.fail("panic", size, in, func() string { return fmt.Sprintf("[panic] %s : Parse with default field %q panicked: %s", q, f, panf) })
 			continue
 		}
 		okf := errf == nil && tf != nil
@@ -469,15 +487,21 @@ func vc11Check(st *vc11Stats, in string, want []vc11Sym, fields []string) {
 		switch {
 		case ok0 && !okf:
 			st.fail("accepted-only-without-default-field", size, in,
-				fmt.Sprintf("[accepted-only-without-default-field] %s : expected Parse with default field %q to succeed as it does without the option (%s), got error %q", q, f, vc11Show(t0), errf))
+				func() string {
+					return fmt.Sprintf("[accepted-only-without-default-field] %s : expected Parse with default field %q to succeed as it does without the option (%s), got error %q", q, f, vc11Show(t0), errf)
+				})
 		case !ok0 && okf:
 			st.fail("accepted-only-with-default-field", size, in,
-				fmt.Sprintf("[accepted-only-with-default-field] %s : expected Parse with default field %q to fail as it does without the option (%q), got %s", q, f, err0, vc11Show(tf)))
+				func() string {
+					return fmt.Sprintf("[accepted-only-with-default-field] %s : expected Parse with default field %q to fail as it does without the option (%q), got %s", q, f, err0, vc11Show(tf))
+				})
 		case ok0 && okf:
 			bad := vc11Judge(t0, tf, f)
 			for cat, what := range bad {
 				st.failN(cat, len(bad), size, in,
-					fmt.Sprintf("[%s] %s : with default field %q Parse returned %s, without it %s; %s", cat, q, f, vc11Show(tf), vc11Show(t0), what))
+					func() string {
+						return fmt.Sprintf("[%s] %s : with default field %q Parse returned %s, without it %s; %s", cat, q, f, vc11Show(tf), vc11Show(t0), what)
+					})
 			}
 		}
 	}
@@ -576,35 +600,28 @@ var vc11Templates = [][]string{
 	{"NOT", "a", ":", "b", "~", "7", "^", "7"},
 }
 
-// vc11Covered: the canonical rendering of these symbols already belongs to one of the
-// exhaustive domains (1)-(3), so other domains skip it (inputs are counted once).
-type vc11Bounds struct{ mainLen, redLen, extraLen int }
+// vc11Bounds: the exhaustive token layers (alphabet, longest sequence); a canonical
+// rendering that belongs to one of them is skipped by the other parts of the domain, so
+// that every input is counted once.
+type vc11Layer struct {
+	alpha  []vc11Sym
+	maxLen int
+}
+
+type vc11Bounds []vc11Layer
 
 func (b vc11Bounds) covered(parts []string) bool {
-	if len(parts) <= b.mainLen {
-		inMain := true
-		for _, p := range parts {
-			inMain = inMain && vc11In(vc11Main, p)
+	for _, l := range b {
+		if len(parts) > l.maxLen {
+			continue
 		}
-		if inMain {
+		in := true
+		for _, p := range parts {
+			in = in && vc11In(l.alpha, p)
+		}
+		if in {
 			return true
 		}
-	}
-	if len(parts) <= b.redLen {
-		inRed := true
-		for _, p := range parts {
-			inRed = inRed && vc11In(vc11Reduced, p)
-		}
-		if inRed {
-			return true
-		}
-	}
-	if len(parts) <= b.extraLen {
-		known := true
-		for _, p := range parts {
-			known = known && (vc11In(vc11Main, p) || vc11In(vc11Extra, p))
-		}
-		return known
 	}
 	return false
 }
@@ -780,15 +797,20 @@ func (g *vc11Gen) input(all []vc11Sym) string {
 
 func vc11Random(seed int64, count int, bounds vc11Bounds, fields []string, total *vc11Stats, samples *[]string) (distinct int) {
 	all := append(append([]vc11Sym{}, vc11Main...), vc11Extra...)
-	workers := runtime.NumCPU()
+	// a fixed number of independent streams, so that the sample does not depend on the
+	// number of CPUs; the streams are distributed over the available cores
+	const workers = 64
 	per := count / workers
 	sets := make([]map[uint64]string, workers)
 	stats := make([]*vc11Stats, workers)
 	var wg sync.WaitGroup
+	slots := make(chan struct{}, runtime.NumCPU())
 	for w := 0; w < workers; w++ {
 		wg.Add(1)
 		go func(w int) {
 			defer wg.Done()
+			slots <- struct{}{}
+			defer func() { <-slots }()
 			g := &vc11Gen{rand.New(rand.NewSource(seed*1000003 + int64(w)))}
 			st := vc11NewStats()
 			st.rnd = true
@@ -908,25 +930,30 @@ func vc11SelfTest() (bad []string) {
 }
 
 func TestVerifStandin_C11(t *testing.T) {
+	defer debug.SetGCPercent(debug.SetGCPercent(400)) // allocation-heavy: collect less often
 	tier := os.Getenv("VERIF_TIER")
 	if tier != "thorough" {
 		tier = "quick"
 	}
 	seed := int64(vc11EnvInt("VERIF_SEED", 1))
-	// quick: main alphabet to 4, reduced alphabet at 5; thorough: 5 and 6
+	// quick: main alphabet to 4 with all field names, 20-symbol sub-alphabet at 5 with the
+	// first name; thorough: main alphabet at 5 and 18-symbol sub-alphabet at 6 with the first name
 	mainLen, extraLen, randomN := 4, 3, 200000
-	if tier == "thorough" {
-		mainLen, extraLen, randomN = 5, 4, 2000000
-	}
 	mainLen = vc11EnvInt("VERIF_C11_LEN", mainLen)
-	redLen := vc11EnvInt("VERIF_C11_RLEN", mainLen+1)
+	type layer struct {
+		alpha  []vc11Sym
+		maxLen int
+	}
+	tops := []layer{{vc11Reduced, mainLen + 1}}
+	if tier == "thorough" {
+		extraLen, randomN = 4, 2000000
+		tops = []layer{{vc11Main, mainLen + 1}, {vc11Small, mainLen + 2}}
+	}
 	extraLen = vc11EnvInt("VERIF_C11_XLEN", extraLen)
 	randomN = vc11EnvInt("VERIF_C11_RANDOM", randomN)
-	// the longest layer of the thorough tier runs with the first field name only
-	redFields := vc11Fields
-	if tier == "thorough" {
-		redFields = vc11Fields[:1]
-	}
+	// the long layers run with the first field name only; the names needing quoting are
+	// exercised on every other part of the domain
+	topFields := vc11Fields[:1]
 
 	for _, b := range vc11SelfTest() {
 		t.Errorf("C11 harness self-test: %s", b)
@@ -945,22 +972,30 @@ func TestVerifStandin_C11(t *testing.T) {
 		bound = fmt.Sprintf("replay of the single input given in VERIF_INPUT with the default fields %q", vc11Fields)
 	} else {
 		all := append(append([]vc11Sym{}, vc11Main...), vc11Extra...)
-		bounds := vc11Bounds{mainLen, redLen, extraLen}
+		bounds := vc11Bounds{{vc11Main, mainLen}, {all, extraLen}}
+		for _, l := range tops {
+			bounds = append(bounds, vc11Layer{l.alpha, l.maxLen})
+		}
 		vc11Check(total, "", []vc11Sym{}, vc11Fields)
 		n1 := 1 + vc11Enumerate(vc11Main, " ", 1, mainLen, -1, vc11Fields, total)
-		n2 := vc11Enumerate(vc11Reduced, " ", mainLen+1, redLen, -1, redFields, total)
+		var n2 int64
+		desc2 := ""
+		for _, l := range tops {
+			n2 += vc11Enumerate(l.alpha, " ", l.maxLen, l.maxLen, -1, topFields, total)
+			desc2 += fmt.Sprintf(" every sequence of %d symbols over the %d symbols %v;", l.maxLen, len(l.alpha), vc11Texts(l.alpha))
+		}
 		n3 := vc11Enumerate(all, " ", 1, extraLen, len(vc11Main), vc11Fields, total)
 		n4 := vc11Neighbourhood(all, bounds, vc11Fields, total)
 		n5 := vc11Random(seed, randomN, bounds, vc11Fields, total, &samples)
 		samples = append([]string{`""`, `"a"`, `"a : b"`, `"NOT a AND b"`, `"+ a ~ 7"`, `"a : ( b OR 7 )"`, `"w* \"q r\""`}, samples...)
 		bound = fmt.Sprintf("all inputs x default-field names %q (none occurs in an input); per pair Parse(q) is compared with Parse(q, WithDefaultField(f)). "+
 			"Inputs: (1) every sequence of 0..%d symbols over the %d-symbol token alphabet %v rendered with single spaces (%d inputs); "+
-			"(2) every sequence of %d..%d symbols over its %d-symbol sub-alphabet %v (%d inputs, field names %q); "+
+			"(2) with the field names %q only:%s (%d inputs); "+
 			"(3) every sequence of 1..%d symbols over alphabet (1) plus %d further term lexemes %v that contains one of the latter (%d inputs); "+
 			"(4) every sequence within two substitutions, one deletion or one insertion (over the %d symbols of (3)) of %d longer sentences %v (%d inputs); "+
 			"(5) %d distinct seeded random inputs: grammar-generated queries with up to 2 token mutations and arbitrary sequences of 6..12 tokens, random layout. "+
 			"Non-trivial = accepted by Parse with or without the option, so that the trees were compared.",
-			vc11Fields, mainLen, len(vc11Main), vc11Texts(vc11Main), n1, mainLen+1, redLen, len(vc11Reduced), vc11Texts(vc11Reduced), n2, redFields,
+			vc11Fields, mainLen, len(vc11Main), vc11Texts(vc11Main), n1, topFields, desc2, n2,
 			extraLen, len(vc11Extra), vc11Texts(vc11Extra), n3, len(all), len(vc11Templates), vc11Templates, n4, n5)
 	}
 
